@@ -81,9 +81,17 @@ theorem newLoop_disk_fun (cfg : Cfg) (hr : cfg.releaseBeforeBail = true) (W : Wo
     (h : x.disk = y.disk) (hx : x.leftover = false) (hy : y.leftover = false) :
     OkSame (newLoop cfg W d P k fuel rid x before) (newLoop (noCache cfg) W d' P k fuel rid' y before) := by
   unfold newLoop
-  cases P.new before with
-  | none => exact ⟨h, hx, hy⟩
-  | some s => exact fileLoop_disk_fun cfg hr W hnf P hg d d' k _ fuel rid rid' s 0 x y h hx hy
+  obtain ⟨c1, c2⟩ := fmtStep_congr W P x y k before h
+  have fx := fmtStep_frame W P x k before
+  have fy := fmtStep_frame W P y k before
+  have lx : (fmtStep W P x k before).1.leftover = false := by rw [fx.2.2]; exact hx
+  have ly : (fmtStep W P y k before).1.leftover = false := by rw [fy.2.2]; exact hy
+  rw [← c1]
+  split
+  · exact ⟨c2, lx, ly⟩
+  · split
+    · exact ⟨c2, lx, ly⟩
+    · exact fileLoop_disk_fun cfg hr W hnf P hg d d' k _ fuel rid rid' _ 0 _ _ c2 lx ly
 
 /-- every entry of the replay table is what the pass yields without the table, from any state with those files -/
 def CacheOK (cfg : Cfg) (W : World C) (fuel : Nat) (PS : List (PassI C σ)) (cache : List ((Nat × List C × Nat) × C)) : Prop :=
